@@ -57,6 +57,10 @@ def run_scenario(ctx, rng, plans, fan, nev, spied, instrumented, check=None):
     st = aosim.make_state(hist, fan, spied)
     try:
       ao.start_at(st)
+      ld = ao.locking_deque
+      # abstract global state for lasso (livelock cycle) detection: everything that records progress
+      s.state_fn = lambda: (ds._q.Queue.qsize(ld.locking_queue), tuple(id(x) for x in ld.deque), len(hist.handled),
+                            sum(1 for p in hist.posts if p['ret'] is not None), len(hist.posts), len(hist.dispatch))
       ths = [ds.SThread(target=aosim.poster, args=(ao, hist, 'p%d' % i, pl)) for i, pl in enumerate(plans)]
       for t in ths:
         t.start()
@@ -81,6 +85,8 @@ def run_scenario(ctx, rng, plans, fan, nev, spied, instrumented, check=None):
       if isinstance(loc, tuple) and loc[0] in ('run_event', 'next_rtc', '_append_queue_reflection_to_spy', '_print_trace_if_live', '_print_spy_if_live') and role == 'run_event':
         ctx.count('consumer_between_get_and_popleft')
     result['steps'], result['switches'] = s.steps, s.switches
+    for k, v in s.lasso_stats.items():
+      ctx.count('lasso_' + k, v)
     return result, s, hist, ao
   finally:
     z = ds.uninstall()
@@ -105,6 +111,9 @@ def run_case(ctx, n):
     key = 'C05/livelock-token-queue-overfilled' if result['tokens'] > result['pending'] + 1 else 'C05/no-progress-within-budget'
     ctx.violation(key, 'after a fair round-robin suffix the system did not reach quiescence within %d yield points: %d posts never returned (%r), %d wake-up tokens for %d pending events' % (
       s.max_steps, len(result['unreturned_posts']), [p['uid'] for p in result['unreturned_posts']], result['tokens'], result['pending']), dict(wit, info=result['info']))
+  elif result['verdict'] == 'livelock-cycle':
+    ctx.violation('C05/livelock-cycle', 'a FAIR periodic schedule was found under which a post never returns: the same global state (tokens %d, pending %d, same thread positions, no post returned, nothing dispatched) recurred %d times in a row while the threads %r kept running; cycle locations %r' % (
+      result['tokens'], result['pending'], result['info']['repetitions'], sorted(set(result['info']['cycle_threads'])), result['info']['locations'][:14]), dict(wit, info=result['info']))
   elif result['verdict'] == 'deadlock':
     ctx.violation('C05/deadlock', 'all threads blocked while a poster has not finished: %r' % (result['info']['blocked'],), dict(wit, info=result['info']))
   elif result['thread_exceptions']:
